@@ -529,8 +529,8 @@ def run(ctx: Ctx, a_ok: bool):
     ctx.rule = ("random graphs (<=2 LNLs, binary/trinary) x {Unilateral, Bilateral (4 symmetry settings), Midline (use_mixing, "
                 "lnl symmetry, use_midext_evo true/false, midext_prob incl. 0 and 1, a small quota use_central -> "
                 "NotImplementedError)} x 1-2 modalities x 1-2 T-stages x stage_dist (normalised / not, zero weights) x "
-                "cohorts of 5-20 patients x seeds; compared on the recorded uniforms; non-trivial iff the drawn cohort has >= 2 "
-                "different table rows")
+                "cohorts of 5-20 patients x seeds; compared on the recorded uniforms; non-trivial iff the draws after the T-stage "
+                "and time draws (extension / findings) produced >= 2 different outcomes in the cohort")
     ctx.notes.append("C16 is partial: independence / uniformity of numpy's bit generator is trusted, not modelled; "
                      "the tie is exact on the recorded stream of uniforms (no frequency test)")
     n = 60 if ctx.tier == "quick" else 500
@@ -544,7 +544,6 @@ def run(ctx: Ctx, a_ok: bool):
         key = json.dumps(c, sort_keys=True)
         st = _stash.get(key, {})
         log = st.get("log", [])
-        rows = set()
         kind = c["kind"] + ("" if c["kind"] != "ml" else f"-evo{int(c['flags']['use_midext_evo'])}-cen{int(c['flags']['use_central'])}")
         # non-triviality: at least two different index tuples among the patients' observation draws
         idxs = {tuple(call["idx"]) for call in log[1 + c["num"]:]} if log else set()
